@@ -329,6 +329,8 @@ func oracleC14(c *PCase) (f *ev.Failure, st pstats) {
 			if nr, err := h.res.NestedResult(ntags[op.Input%len(ntags)]); err == nil && nr != nil {
 				nestedHandles = append(nestedHandles, nr)
 				st.nestedHandles++
+				// the kept nested result hands out results of its own (second level) before the program closes it
+				touchSecondLevel(nr, &c.Def, ntags[op.Input%len(ntags)])
 			}
 		case "closenested":
 			if len(nestedHandles) == 0 {
@@ -382,6 +384,20 @@ func oracleC14(c *PCase) (f *ev.Failure, st pstats) {
 	return nil, st
 }
 
+// touchSecondLevel asks nr (the nested result for tag of def) for the nested results of every nested tag of its own.
+func touchSecondLevel(nr *lazyproto.DecodeResult, def *DefSpec, tag int) {
+	_, sub := def.lookup(tag)
+	if sub == nil {
+		return
+	}
+	for _, dt := range sub.Tags {
+		if dt.Nested != nil && dt.Tag > 0 {
+			_, _ = nr.NestedResults(dt.Tag)
+			_, _ = nr.NestedResult(dt.Tag)
+		}
+	}
+}
+
 func genPCase(t *rapid.T) *PCase {
 	s := genSchema(t, 2)
 	c := &PCase{Def: *s.def()}
@@ -433,7 +449,7 @@ func genPCase(t *rapid.T) *PCase {
 	return c
 }
 
-const ruleC14 = "case = options {safe, fast} x WithMaxBufferSize {unset, 0, 1, 2, 1024} x buffer filter {none, halving, to-zero, negative} + one definition (schema with 1..5 numbers, nested to depth 2) + a pool of 2..6 inputs of differing shapes (each number 0..5 occurrences, nested counts above and below the buffer limit, 1 in 12 nested elements not itself a well-formed message, 1 in 5 numbers carried with another wire type than in the pool's other inputs) + a program of <= 40 ops {Decode(i), accessor query incl. NestedResult(s) paths, Range, Close, keep a NestedResult handle, Close a kept nested handle - before or after its parent was closed} on one Decoder; " +
+const ruleC14 = "case = options {safe, fast} x WithMaxBufferSize {unset, 0, 1, 2, 1024} x buffer filter {none, halving, to-zero, negative} + one definition (schema with 1..5 numbers, nested to depth 2) + a pool of 2..6 inputs of differing shapes (each number 0..5 occurrences, nested counts above and below the buffer limit, 1 in 12 nested elements not itself a well-formed message, 1 in 5 numbers carried with another wire type than in the pool's other inputs) + a program of <= 40 ops {Decode(i), accessor query incl. NestedResult(s) paths, Range, Close, keep a NestedResult handle (which in turn hands out the nested results of its own nested tags), Close a kept nested handle - before or after its parent was closed} on one Decoder; " +
 	"model: every live handle remembers its input; each accessor must equal the reference parse of THAT input; in safe mode every slice/string handed out is re-read after every later step (incl. after Close and after the decoder re-used the pooled object) and must be unchanged; no op panics; finally everything is closed, every input decoded again and the hand-outs re-checked; " +
 	"non-trivial = a program in which a recycled result (same pointer as an earlier closed one) is read; distinct by case content"
 
